@@ -12,8 +12,12 @@
    save-point error (breaks gorm's SavePointerDialectorInterface contract; never set when
    c_report C = true).  c_nosp C = false: the dialector implements save points (with one that does
    not, SavePoint / RollbackTo answer ErrUnsupportedDriver: modelled, tied by the correspondence,
-   outside these theorems).  no_cancel p: no block cancels its own context (with Cancel the model
-   predicts gorm's behaviour, which violates the property: see the _refuted theorem).  c_soft C =
+   outside these theorems).  plain_prog p: no block cancels its own context (with Cancel the model
+   predicts gorm's behaviour, which violates the property: see the _refuted theorem) and no
+   nested block switches nested transactions off on its receiver (per-call
+   Session{DisableNestedTransaction: true}: modelled — c04_nested_disabled_plain —, tied by the
+   correspondence, and the specification is evaluated on every such case; the global setting
+   c_nonest C is inside the theorems).  c_soft C =
    false: the pool's transaction wrapper does not fail Commit by itself (with it the transaction
    stays open until the Rollback that follows; c04_every_tx_ended / c04_released cover that case
    too).  The model follows /repo after fix 1c49b86 (the nested branch calls
@@ -33,7 +37,7 @@ Theorem c04_atomic : forall E,
   forall C, c_nosp C = false -> c_soft C = false ->
   forall fault manual p extra db0 o x s,
   run_top E C fault manual p extra (init_st db0) = (o, x, s) ->
-  scoped [] p = true -> no_cancel p = true -> x_rb (s_fl s) = false -> x_drop (s_fl s) = false ->
+  scoped [] p = true -> plain_prog p = true -> x_rb (s_fl s) = false -> x_drop (s_fl s) = false ->
   s_db s = spec_final (negb (c_nonest C)) o (rev (s_ops s)) db0.
 Proof. exact top_atomic. Qed.
 Print Assumptions c04_atomic.
@@ -49,7 +53,7 @@ Theorem c04_result_usable : forall E,
   forall C, c_nosp C = false -> c_soft C = false ->
   forall fault manual p extra db0 o x s,
   run_top E C fault manual p extra (init_st db0) = (o, x, s) ->
-  scoped [] p = true -> no_cancel p = true -> x_rb (s_fl s) = false -> x_drop (s_fl s) = false ->
+  scoped [] p = true -> plain_prog p = true -> x_rb (s_fl s) = false -> x_drop (s_fl s) = false ->
   top_ok o (rev (s_ops s)) = true /\ usable o (rev (s_ops s)) = true /\ extras_ok extra x = true.
 Proof. exact top_result. Qed.
 Print Assumptions c04_result_usable.
@@ -82,7 +86,7 @@ Theorem c04_spec_holds : forall E,
   forall C, c_nosp C = false -> c_soft C = false ->
   forall fault manual p extra o x s,
   run_top E C fault manual p extra (init_st []) = (o, x, s) ->
-  scoped [] p = true -> no_cancel p = true ->
+  scoped [] p = true -> plain_prog p = true ->
   x_rb (s_fl s) = false -> x_drop (s_fl s) = false ->
   spec_holds (mk_case manual p extra [] C None o x [] (s_db s)
                 (fst (pool E (rev (s_txlog s)))) (snd (pool E (rev (s_txlog s)))) (rev (s_ops s))) = true.
@@ -106,8 +110,9 @@ Theorem c04_nested_isolated : forall E,
   (forall n t, sq_rbto E n t = ref_rbto n t) ->
   forall C, c_nosp C = false ->
   forall fault cx b h s r o h1 s1 t stk,
-  c_nonest C = false -> scoped [] b = true -> no_cancel b = true ->
-  nested E C fault cx (run_body E C fault b) h s = (r, o, h1, s1) -> s_dead s = false ->
+  c_nonest C = false -> scoped [] b = true -> plain_prog b = true ->
+  nested E C fault cx false (run_body E C fault b) h s = (r, o, h1, s1) ->
+  s_dead s = false -> s_nonest s = false ->
   s_tx s = Some (mkTx t stk) -> gen_ok (s_gen s) stk ->
   x_rb (s_fl s1) = false -> x_drop (s_fl s1) = false ->
   h1 = h /\
@@ -115,11 +120,23 @@ Theorem c04_nested_isolated : forall E,
 Proof. exact nested_isolated. Qed.
 Print Assumptions c04_nested_isolated.
 
+(* NESTED BLOCK, NESTED TRANSACTIONS DISABLED ON THE RECEIVER
+   (tx.Session(&Session{DisableNestedTransaction: true}).Transaction(f) inside a running
+   transaction): the call is f and nothing else, no SAVEPOINT and no ROLLBACK TO whatever f returns
+   (so nothing is undone by the block itself), the enclosing handle comes back as it was and its
+   own setting is in force again for the blocks that follow *)
+Theorem c04_nested_disabled_plain : forall E C fault body h s r l h0 s0,
+  body h (set_nonest s true) = (r, l, h0, s0) ->
+  nested E C fault false true body h s
+  = (r, ONN (OC true l (cls_of r) (cls_of r)), h, set_nonest s0 (s_nonest s)).
+Proof. exact nested_disabled_plain. Qed.
+Print Assumptions c04_nested_disabled_plain.
+
 (* ... but when the nested block's own context (tx.WithContext(ctx).Transaction) is cancelled inside
    it, the failing block is NOT undone: the model follows gorm, and gorm violates the property
    (known finding nested-rollback-under-cancelled-context, corpus/C04) *)
 Theorem c04_nested_undo_refuted_cancelled_context :
-  scoped [] cancel_prog = true /\ no_cancel cancel_prog = false /\
+  scoped [] cancel_prog = true /\ plain_prog cancel_prog = false /\
   let '(o, x, s) := run_top ref_env cfg_default (fault_at None) false cancel_prog [] (init_st []) in
   x_rb (s_fl s) = false /\ x_drop (s_fl s) = false /\
   s_db s = [1; 2; 3] /\ spec_final true o (rev (s_ops s)) [] = [1; 3].
